@@ -31,8 +31,7 @@ def check(ctx, adt=T.ANIM_ADT, F=None, only_r1=False):
             ok = r[0] == "bin" and r[1] == "Le"
             if ok:
                 d, t = r[2], r[3]
-                ok = call_is(d, T.TL_TRAIT, "duration") and d[2][0][0] == "&" and \
-                    t == ("call", "core::time::Duration::as_secs_f32", (("&", init("time")),))
+                ok = call_is(d, T.TL_TRAIT, "duration") and d[2][0][0] == "&" and t in T.as_seconds(init("time"))
             ctx.ob("R1", inst + "/ended-iff-time>=duration", ok,
                    "is_ended must be `state_duration.as_secs_f32() >= current timeline.duration()` "
                    "(canonical: duration <= time); it is %s" % show(r), body["span"], trace_of(p),
